@@ -403,6 +403,20 @@ func init() {
 		return p
 	}
 
+	planTable["C24"] = func(q bool) *Plan {
+		p := &Plan{Level: "model_checking", Engine: "E-enum + E-sched",
+			Text:      "Histories: every sequence of up to 4 (quick) / 5 (thorough) operations out of {set a, set b, delete a, set a with discard-earlier-versions, set a already expired, set a with a future expiry, flush, compaction, backup point} on a source DB with NumVersionsToKeep 1 and 100. At every backup point an incremental backup is taken with exactly the version the previous backup returned; at the end a last incremental and a full backup. The full backup loaded into an empty DB and the chain loaded in order into another both show the source's final visible state (value, user meta, expiry through Get and iteration); with NumVersionsToKeep 100 the restored version list of every key equals the source's versions down to and including the first delete / expired / discard-earlier entry plus the delete marker Backup adds below a discard-earlier entry; the version a full backup returns is the newest version it dumped; after Load a new commit gets a timestamp above every loaded version and is read back. Schedules: a full backup with two producer goroutines over four accounts in different key ranges races a transaction moving an amount between the first and the last; then an incremental backup from the returned version; under every interleaving up to the bound, loading full + incremental reproduces the source's final state.",
+			Note:      "Backups are taken through DB.Backup / DB.Load on real databases; expiry uses explicit ExpiresAt values (already past / far future).",
+			Technique: "bounded-exhaustive enumeration of histories with backup points + stateless model checking of backup producers vs a concurrent commit (controlled scheduler)",
+			Rule:      "all operation sequences up to the length (maintenance-only prefixes pruned) x NumVersionsToKeep; schedules up to the bound"}
+		if q {
+			p.Stages = []Stage{sched("c24sched", 2, 8, 40, nil), en("c24seq", 16, 90, prm("len", 3))}
+		} else {
+			p.Stages = []Stage{sched("c24sched", 3, 16, 300, nil), en("c24seq", 16, 1500, prm("len", 5))}
+		}
+		return p
+	}
+
 	planTable["C25"] = func(q bool) *Plan {
 		p := &Plan{Level: "model_checking", Engine: "E-sched + E-enum",
 			Text:      "Schedules: a Stream run with two producer goroutines over four accounts that lie in different key ranges races a committer that moves an amount from the first to the last account in one transaction; the producers (points after their transaction is created and at each range pick-up) and the committer are interleaved in every way up to the preemption bound; each account must be delivered exactly once and the delivered (first, last) pair must be a state some single snapshot holds (before or after the transfer, never mixed); Send never runs concurrently with itself. Configurations (sequential): 3 layouts (memtable only / last level in several small tables / last level + L0 + memtable; 15 keys with up to 3 versions and tombstones) x NumVersionsToKeep {1,100} x NumGo {1,2,3} x Prefix {none,k0,k1} x ChooseKey {all, even, odd} x SinceTs {0, mid}: the delivered KV lists (key, version, value, user meta, expiry; grouped per key, each key once) equal what one read snapshot taken at the start shows under the default KeyToList.",
